@@ -37,6 +37,7 @@ type Baseline struct {
 	Locals map[string]map[string]bool   // qualified function -> set of defining expressions
 	Tags   map[string]map[string]bool   // qualified function -> tags of its tagged switch statements
 	Shapes map[string]map[string]int    // qualified function -> loose key of a defining expression -> how many locals have it
+	Lits   map[string][]string          // qualified struct type -> fields set by every keyed literal of it
 }
 
 // Decl is one line of the inventory.
@@ -52,7 +53,7 @@ func LoadBaseline(path string) (*Baseline, error) {
 		return nil, err
 	}
 	defer f.Close()
-	b := &Baseline{Decls: map[string]map[string]string{}, Locals: map[string]map[string]bool{}, Tags: map[string]map[string]bool{}, Shapes: map[string]map[string]int{}}
+	b := &Baseline{Decls: map[string]map[string]string{}, Locals: map[string]map[string]bool{}, Tags: map[string]map[string]bool{}, Shapes: map[string]map[string]int{}, Lits: map[string][]string{}}
 	sc := bufio.NewScanner(f)
 	sc.Buffer(make([]byte, 1<<20), 1<<24)
 	for sc.Scan() {
@@ -63,6 +64,14 @@ func LoadBaseline(path string) (*Baseline, error) {
 		parts := strings.SplitN(line, "\t", 3)
 		if len(parts) != 3 {
 			return nil, fmt.Errorf("%s: malformed line %q", path, line)
+		}
+		if parts[0] == "litfields" {
+			if parts[2] != "" {
+				b.Lits[parts[1]] = strings.Split(parts[2], ",")
+			} else {
+				b.Lits[parts[1]] = nil
+			}
+			continue
 		}
 		if parts[0] == "localshape" {
 			if b.Shapes[parts[1]] == nil {
@@ -211,8 +220,72 @@ func (p *Program) DeclInventory() []string {
 			})
 		}
 	}
+	// fields set by every keyed composite literal of a first-party struct
+	for _, pkg := range p.All {
+		common := map[string]map[string]bool{}
+		for _, fd := range p.AllFuncDeclsRaw(pkg) {
+			ast.Inspect(fd.Body, func(n ast.Node) bool {
+				lit, ok := n.(*ast.CompositeLit)
+				if !ok {
+					return true
+				}
+				t := pkg.TypesInfo.TypeOf(lit)
+				if t == nil {
+					return true
+				}
+				if ptr, isPtr := t.(*types.Pointer); isPtr {
+					t = ptr.Elem()
+				}
+				named, ok := t.(*types.Named)
+				if !ok || named.Obj().Pkg() != pkg.Types {
+					return true
+				}
+				if _, isStruct := named.Underlying().(*types.Struct); !isStruct {
+					return true
+				}
+				keys := map[string]bool{}
+				for _, el := range lit.Elts {
+					if kv, ok := el.(*ast.KeyValueExpr); ok {
+						if id, ok := kv.Key.(*ast.Ident); ok {
+							keys[id.Name] = true
+						}
+					}
+				}
+				if len(keys) == 0 {
+					return true
+				}
+				q := pkg.PkgPath + "." + named.Obj().Name()
+				if common[q] == nil {
+					common[q] = keys
+				} else {
+					for k := range common[q] {
+						if !keys[k] {
+							delete(common[q], k)
+						}
+					}
+				}
+				return true
+			})
+		}
+		for q, set := range common {
+			var fs []string
+			for k := range set {
+				fs = append(fs, k)
+			}
+			sort.Strings(fs)
+			out = append(out, "litfields\t"+q+"\t"+strings.Join(fs, ","))
+		}
+	}
 	sort.Strings(out)
 	return out
+}
+
+// LitFields returns the inventory's "fields set by every literal" table (nil without an inventory).
+func (p *Program) LitFields() map[string][]string {
+	if p.opt.Baseline == nil {
+		return nil
+	}
+	return p.opt.Baseline.Lits
 }
 
 type localDef struct {
